@@ -21,6 +21,11 @@ FS_FAULTS = {
     "name-dot-backslash": "a.\\b.txt",
     "name-double-backslash": "c\\\\d.txt",
     "symlink-loop": "loop-link",
+    # the same kinds under a dot-name: the UMN handler takes dot-files for link files and reads them
+    "dot-dangling-symlink": ".dangling",
+    "dot-fifo": ".fifo",
+    "dot-socket": ".socket",
+    "dot-symlink-loop": ".loop",
 }
 INJECTED = ["vanished-after-enumeration", "stat-ENOENT", "stat-EACCES"]
 HEALTHY = ["alpha.txt", "beta.html", "gamma", "delta.gif", "epsilon.txt", "zeta", "eta.txt", "theta.pdf"]
@@ -41,6 +46,9 @@ def healthy_tree(names: typing.List[str]) -> Tree:
 def add_fault(t: Tree, kind: str, pos_name: str) -> str:
     """Adds the faulty entry; returns its file name. pos_name steers its sort position."""
     name = pos_name + FS_FAULTS[kind]
+    if kind.startswith("dot-"):
+        name = FS_FAULTS[kind] + pos_name     # must keep its leading dot
+        kind = kind[4:]
     if kind == "dangling-symlink":
         t.symlink(name, "does-not-exist-anywhere")
     elif kind == "symlink-loop":
